@@ -37,6 +37,16 @@ CHECKS.update({
    text="For every crash point of every sampled history: open succeeds, the recovered database accepts a write-then-read transaction, closing and opening it again changes nothing, and recovery interrupted at each of its own I/O prefixes and restarted yields the same contents."),
 })
 
+CHECKS.update({
+ "C07": dict(engine="E1-sqlsim", level="exploration", ref="4 (C07), 2.3 (E1)",
+   technique="deterministic simulation: seeded histories on tables with PRIMARY KEY / UNIQUE / NOT NULL over a five-value key domain (collisions, delete-then-reinsert, rollback-then-reinsert, two sessions), model accepts <=> engine accepts, committed state compared after every step",
+   text="Seeded histories in which keys collide constantly (inserts, deletes, re-inserts, rollbacks, rejected statements inside sessions and batches); a statement the model rejects must be rejected whole and one it accepts must be accepted, and the committed state never holds a duplicate key or a NULL in a NOT NULL column."),
+ "C17": dict(engine="E3a-walsim", level="fault_enumeration", ref="4 (C17), 2.3 (E3a)",
+   note="Drives the real WriteAheadLog through hook H2 (facade: create/open/push/force/truncate/read). Trusted base: the facade's push (computes the next LSN exactly as Pager::push_to_log does), the vector model, the I/O tap. Reads are issued only when the log is quiescent on disk (the engine itself reads its log only during recovery); the forced-watermark half of the property is judged at the crash points. Disk model as in C01.",
+   technique="deterministic simulation of the log component with crash-fault enumeration: seeded append/force/reopen/truncate/read sequences with boundary-hitting sizes against a vector model; every I/O prefix reopened and read back",
+   text="Seeded operation sequences with payload sizes from empty to one block, all record kinds, read-ahead 1-6; after every quiescent read the records must equal the model exactly (order, strictly increasing LSNs, tid, kind, undo, redo), and at EVERY prefix of the recorded file mutations the reopened log must return a prefix of what was appended that covers every acknowledged force."),
+})
+
 NOT_APPLICABLE = {
  "C05": "pure function of (table contents, query text): no schedule, crash point, clock or interleaving enters it; needs differential/property-based testing, not simulation",
  "C18": "pure function of (stored bytes, schema, snapshot, horizon); the property asks for bounded exhaustive enumeration of a codec, not simulation",
@@ -74,6 +84,7 @@ def main():
             "add_only": True,
         },
         "engines": [
+            {"name": "E3a-walsim", "path": "/verif/sim/src/walsim.rs", "serves_properties": ["C17"], "kind_free_text": "storage-level simulator of the write-ahead log over the verif facade, with crash at every I/O prefix"},
             {"name": "E2-crashsim", "path": "/verif/sim/src/crashsim.rs", "serves_properties": [p for p, c in CHECKS.items() if c["engine"] == "E2-crashsim"], "kind_free_text": "E1 plus the I/O tap: every prefix of a history's file mutations is materialised as a disk image, opened with the real recovery and judged against the acknowledged model state; nested for recovery's own I/O"},
             {"name": "E1-sqlsim", "path": "/verif/sim/src/sqlsim.rs", "serves_properties": [p for p, c in CHECKS.items() if c["engine"] == "E1-sqlsim"], "kind_free_text": "whole-database history simulator: seeded event sequences over sessions / autocommit / batches / vacuum / checkpoint / reopen, reference SI model, result and state oracles"},
         ],
